@@ -8,10 +8,13 @@
          m | m x [ rep  eqU(6Q)  cols(k x 6Q) ]
      7, 8 : si (ignored) | site eps(Q) | n | eqxyz(n x 3Q) | pos(3Q)   position_formula_query (7) / u_formula_query (8):
          answer [i] for Some i, [-9] for the empty dictionary
+     9 : which (1 = [xyz] symbols, 3 = U symbols) | npairs | npairs x [ len key(len) len value(len) ] | len text(len)
+         custom-symbol translation of one formula string (character codes); answer = character codes of the result
    Answer: list of the numbers of the clauses that failed ([] = accepted); [-1] undecodable, [-2] no such setting. *)
 From Coq Require Import ZArith QArith List Bool.
 From DS Require Import Base.ZMat Base.SGDefs Model.C05_QBase Model.C05_PosCert Model.C06_UCert Gen.SGTables.
-From DS Require Import Model.C06_Query Gen.C06_QueryGuards Model.C06_QueryMethods.
+From DS Require Import Model.C06_Query Gen.C06_QueryGuards Model.C06_QueryMethods Model.C05_SymTrans.
+From Coq Require Import Ascii.
 Import ListNotations.
 Open Scope Z_scope.
 
@@ -69,10 +72,25 @@ Definition rdUcert : rd ucert :=
   ret {| uc_x := x; uc_tol := tol; uc_B := B; uc_Uin := Uin; uc_par := par; uc_Uij := Uij;
          uc_iso := negb (iso =? 0); uc_P := P; uc_C := C; uc_forms := forms |}))))))))))))).
 
+Definition rdChars : rd (list ascii) := bind rdN (fun n => bind (rep rdN n) (fun l => ret (map ascii_of_nat l))).
+Definition rdPair : rd (list ascii * list ascii) := bind rdChars (fun k => bind rdChars (fun v => ret (k, v))).
+Fixpoint chars_eqb (a b : list ascii) : bool :=
+  match a, b with [], [] => true | x :: a', y :: b' => Ascii.eqb x y && chars_eqb a' b' | _, _ => false end.
+Fixpoint dict_lookup (d : list (list ascii * list ascii)) (k : list ascii) : option (list ascii) :=
+  match d with [] => None | (k', v) :: r => if chars_eqb k k' then Some v else dict_lookup r k end.
+Definition run_translate (which : Z) (rest : tk) : list Z :=
+  match bind rdN (fun n => bind (rep rdPair n) (fun d => bind rdChars (fun s => ret (d, s)))) rest with
+  | Some ((d, s), []) =>
+      map (fun c => Z.of_nat (nat_of_ascii c))
+          (if which =? 1 then translate_xyz (dict_lookup d) s else translate_U (dict_lookup d) s)
+  | _ => [-1]
+  end.
+
 Definition all_ops : list (list symop) := map sg_ops all_settings.
 
 Definition c0506_run (l : tk) : list Z :=
   match l with
+  | 9 :: which :: rest => run_translate which rest
   | kind :: si :: rest =>
       match (if 0 <=? si then nth_error all_ops (Z.to_nat si) else None) with
       | None => [-2]
